@@ -4,8 +4,11 @@ EXTENDS Ctor, TLC, Json, IOUtils
 Rec == ndJsonDeserialize(IOEnv.TRACE)
 VARIABLES l
 TInit == l = 1
+PROP == IOEnv.PROP
 Step == /\ l <= Len(Rec) /\ l' = l + 1
-        /\ Rec[l].outcome \in Accept(Rec[l].call)
+        /\ IF PROP = "C05" THEN Rec[l].outcome \in Accept(Rec[l].call)
+           ELSE \* C06 / C17: recency order of a cache built from an ordered source
+                (IF Rec[l].outcome = "Ok" THEN OrderOK(Rec[l].call, Rec[l].order, Rec[l].cap) ELSE TRUE)
 TSpec == TInit /\ [][Step]_l
 Accepted ==
   LET d == TLCGet("stats").diameter IN
